@@ -66,6 +66,11 @@ func checkC03(c *core.Ctx) {
 	checkFixedSizeTable(c, gr)
 	// R4/R5 + scalar layout live in iohelp
 	iohelpLayoutRules(c, gr.p, "R1w", "R4", "R5")
+	// R6: a conformant encoding is read back by helpers that take exactly the
+	// declared bytes and never look at, or bound themselves by, the underlying reader
+	iohelpStreamWidths(c, gr.p, "R6")
+	iohelpLatchRules(c, gr.p, "-", "R6a", "-", "-")
+	dropRules(c, "-")
 	gr.sample(3)
 }
 
